@@ -188,6 +188,13 @@ func (s *genState) request() Hop {
 			h.ForgeKey = &k
 		}
 		h.Create = g.IntN(2) == 0
+		// a stolen or replayed cookie often comes from elsewhere
+		switch g.IntN(4) {
+		case 0:
+			h.Addr = Addr{V4: true, A: 99, B: g.IntN(3), C: 1, D: 1 + g.IntN(200), P: 1024 + g.IntN(60000)}
+		case 1:
+			h.Addr = s.addrFor(g.IntN(4))
+		}
 	}
 	h.Script = s.script()
 	return h
